@@ -1120,7 +1120,10 @@ func runFrames(w *bufio.Writer, seed uint64, n int, _ []string) {
 			continue
 		}
 		for fi := 0; fi < nf; fi++ {
-			for _, bv := range frBounds {
+			for bi, bv := range frBounds {
+				if !thorough && (bi == 3 || bi == 6 || bi == 9 || bi == 12) {
+					continue // limit-1 values only in the thorough tier
+				}
 				if e := g.doFrame(g.mkFrame(k, fi, bv), idx); e != nil && len(e) < 200 {
 					encs = append(encs, e)
 				}
